@@ -790,3 +790,14 @@ func findBlock(f *ir.Func, blockIdent ir.LocalIdent) (*ir.Block, error) {
 	}
 	return nil, errors.Errorf("unable to locate basic block %q of function %q", blockIdent.Ident(), f.Ident())
 }
+
+// checkNoVarArgForwarding reports an error if the given argument list ends with
+// '...' (the forwarded variadic arguments of a musttail call in a varargs
+// function); the IR has no representation for it, and dropping it would print
+// an invalid call.
+func checkNoVarArgForwarding(args ast.Args) error {
+	if strings.HasSuffix(strings.TrimSpace(args.Text()), "...") {
+		return errors.New("support for '...' in the argument list of a call (forwarding of variadic arguments by a musttail call) not yet implemented")
+	}
+	return nil
+}
